@@ -379,6 +379,10 @@ func (x *Exec) canInline(st *State, fn *ssa.Function) bool {
 	if fn.Blocks == nil {
 		return false
 	}
+	if why, ok := x.eng.inlineFailed[fn]; ok {
+		x.noteLib("helper " + shortFn(fn) + " is outside the modelled subset (" + why + "): its call is abstracted to an unknown call — everything it can reach is unknown afterwards")
+		return false
+	}
 	if !strings.HasPrefix(fnPkgPath(fn), "github.com/buzzfeed/sso") {
 		return false
 	}
